@@ -650,7 +650,7 @@ func runCertificates(c *core.Ctx) []genCert {
 		panicked, msg = core.Guard(func() { y, err = yubiattest.ParseCertificate(der) })
 		return
 	}
-	for _, gc := range out {
+	for gi, gc := range out {
 		in := map[string]interface{}{"certificate": gc.name, "der": hex.EncodeToString(gc.der)}
 		// (a) agreement with the standard library
 		y, yerr, p, msg := parseY(gc.der)
@@ -710,7 +710,9 @@ func runCertificates(c *core.Ctx) []genCert {
 			}
 		}
 		// (c) trailing data
-		for _, tail := range [][]byte{{0}, {0x30, 0x00}, []byte("\n"), gc.der[:5]} {
+		// (incl. trailing data that is itself one or two complete, well-formed certificates)
+		other := out[(gi+1)%len(out)].der
+		for _, tail := range [][]byte{{0}, {0x30, 0x00}, []byte("\n"), gc.der[:5], gc.der, other, append(append([]byte(nil), other...), gc.der...)} {
 			d3 := append(append([]byte(nil), gc.der...), tail...)
 			_, e, p, msg := parseY(d3)
 			if p {
